@@ -6,17 +6,10 @@ import UgoVerif.Proofs.CompileInv
 namespace UgoVerif.Compile
 open UgoVerif UgoVerif.Go UgoVerif.Ast
 
-theorem tablesOK_cons {t : Table} {ts : List Table} (ht : StoreOK t.store) (h : TablesOK ts) : TablesOK (t :: ts) := by
-  intro t' ht'
-  simp at ht'
-  rcases ht' with ht' | ht'
-  · subst ht'; exact ht
-  · exact h t' ht'
-
-theorem tablesOK_tail {t : Table} {ts : List Table} (h : TablesOK (t :: ts)) : TablesOK ts :=
-  fun t' ht' => h t' (by simp [ht'])
-
-theorem storeOK_nil : StoreOK [] := fun _ h => by simp at h
+theorem head_of_inv {s : CState} (hs : Inv s) : ∃ t r, s.tables = t :: r := by
+  cases h : s.tables with
+  | nil => exact absurd h hs.ne
+  | cons t r => exact ⟨t, r, rfl⟩
 
 theorem Sat.of_run {α} {m : CM α} {s s' : CState} {a : α} {Q : α → CState → Prop}
     (hr : runCM m s = (.ok a, s')) (h : Q a s') : Sat m s Q := by
@@ -50,43 +43,50 @@ theorem runCM_popTable {s : CState} {t : Table} {r : List Table} (h : s.tables =
   rw [runCM_modify]
   simp [h, runCM_pure]
 
+theorem limsOf_tables {s s' : CState} (hc : s'.constants = s.constants) (h1 : fmd s'.tables = fmd s.tables)
+    (h2 : fnf s'.tables = fnf s.tables) : limsOf s' = limsOf s := by
+  simp [limsOf, hc, h1, h2]
+
 theorem good_withBlock {body : CM Unit} (hb : Good body) : Good (withBlock body) := by
   intro s hs
-  obtain ⟨t, r, htr⟩ : ∃ t r, s.tables = t :: r := by
-    cases h : s.tables with
-    | nil => exact absurd h hs.ne
-    | cons t r => exact ⟨t, r, rfl⟩
+  obtain ⟨t, r, htr⟩ := head_of_inv hs
   unfold withBlock
   apply Sat.bind_of_run (runCM_forkTable true htr)
-  generalize hs1 : ({ s with tables := _ :: s.tables } : CState) = s1
-  have hi1 : Inv s1 := by
-    subst hs1
-    exact hs.of_tables (by simp) (tablesOK_cons storeOK_nil hs.tabs) rfl rfl
-  have ht1 : s1.tables.length = s.tables.length + 1 := by subst hs1; simp
+  generalize htn : ({ block := true, disableParams := t.disableParams, hasParentConstLit := t.hasConstLit || t.hasParentConstLit } : Table) = tn
+  have hblk : tn.block = true := by subst htn; rfl
+  generalize hs1 : ({ s with tables := tn :: s.tables } : CState) = s1
+  have ht1 : s1.tables = tn :: s.tables := by subst hs1; rfl
   have hin1 : s1.insts = s.insts := by subst hs1; rfl
   have hl1 : s1.loops = s.loops := by subst hs1; rfl
+  have hc1 : s1.constants = s.constants := by subst hs1; rfl
+  have hb1 : s1.builtins = s.builtins := by subst hs1; rfl
+  have hi1 : Inv s1 := by
+    refine hs.of_tables (by rw [ht1]; simp) ?_ ?_ hin1 hl1 hc1 hb1
+    · rw [ht1, hc1]; exact chain_fork hs.chain hs.ne tn (by subst htn; rfl) (by subst htn; rfl) (by subst htn; rfl)
+    · rw [limsOf_tables hc1 (by rw [ht1]; exact fmd_cons_block hblk) (by rw [ht1]; exact fnf_cons_block hblk)]
+      exact Lims.le_refl _
   apply Sat.bind
   apply Sat.mono (hb s1 hi1)
   intro _ s2 ⟨hi2, hr2, _⟩
-  obtain ⟨t2, r2, htr2⟩ : ∃ t r, s2.tables = t :: r := by
-    cases h : s2.tables with
-    | nil => exact absurd h hi2.ne
-    | cons t r => exact ⟨t, r, rfl⟩
+  obtain ⟨t2, r2, htr2⟩ := head_of_inv hi2
   apply Sat.bind_of_run (runCM_popTable htr2)
   apply Sat.pure
-  have hlen : r2.length = s.tables.length := by
-    have := hr2.tlen
-    rw [htr2, ht1] at this
-    simpa using this
-  have hc1 : s1.constants = s.constants := by subst hs1; rfl
-  refine ⟨hi2.of_tables ?_ ?_ rfl rfl, hr2.transfer hin1 hl1 rfl rfl hlen (by rw [← hc1]; exact hr2.csz), trivial⟩
-  · intro h
-    simp only at h
-    rw [h, htr] at hlen
-    simp at hlen
-  · have := hi2.tabs
-    rw [htr2] at this
-    exact tablesOK_tail this
+  have hch : ChainLE (tn :: s.tables) (t2 :: r2) := by rw [← ht1, ← htr2]; exact hr2.chain
+  have hblk2 : t2.block = true := by rw [hch.1]; exact hblk
+  have hrne : r2 ≠ [] := ne_of_chainLE hch.tail hs.ne
+  have hlims : (limsOf s).le (limsOf { s2 with tables := r2 }) := by
+    have h1 := hr2.lims
+    have e1 : limsOf s1 = limsOf s :=
+      limsOf_tables hc1 (by rw [ht1]; exact fmd_cons_block hblk) (by rw [ht1]; exact fnf_cons_block hblk)
+    have e2 : limsOf { s2 with tables := r2 } = limsOf s2 :=
+      limsOf_tables rfl (by rw [htr2]; exact (fmd_cons_block hblk2).symm) (by rw [htr2]; exact (fnf_cons_block hblk2).symm)
+    rw [e1] at h1; rw [e2]; exact h1
+  have hchain2 : ChainOK s2.constants r2 := by have := hi2.chain; rw [htr2] at this; exact this.tail
+  refine ⟨⟨hrne, hchain2, hi2.walk, hi2.loops, hi2.consts, ?_, hi2.bok⟩,
+    hr2.transfer hin1 hl1 rfl rfl hch.tail (by rw [← hc1]; exact hr2.cpre), trivial⟩
+  have e2 : limsOf { s2 with tables := r2 } = limsOf s2 :=
+    limsOf_tables rfl (by rw [htr2]; exact (fmd_cons_block hblk2).symm) (by rw [htr2]; exact (fnf_cons_block hblk2).symm)
+  rw [e2]; exact hi2.targets
 
 theorem good_blockOf {body : List Stmt} {act : CM Unit} (h : Good act) : Good (blockOf body act) := by
   unfold blockOf
@@ -100,10 +100,16 @@ theorem good_ite {α} {c : Prop} [Decidable c] {P : α → Prop} {a b : CM α} (
   · exact ha
   · exact hb
 
+
 /-! ### loops -/
 
-theorem st_withLoop_bind {β} {body : CM Unit} {f : Loop → CM β} {s0 s : CState} {ps ts : List Nat}
-    {Q : β → CState → Prop} (hb : Good body) (hst : St s0 ps ts s)
+/-- a condition on the state that only looks at the tables and survives their growth -/
+def StableT (A : CState → Prop) : Prop :=
+  ∀ s s', A s → ChainLE s.tables s'.tables → A s'
+
+theorem st_withLoop_bindA {β} {body : CM Unit} {f : Loop → CM β} {s0 s : CState} {ps ts : List Nat}
+    {Q : β → CState → Prop} (A : CState → Prop) (hA : A s) (hstab : StableT A)
+    (hb : ∀ s1, Inv s1 → A s1 → Sat body s1 (fun _ s' => Inv s' ∧ Rel s1 s' ∧ True)) (hst : St s0 ps ts s)
     (h : ∀ loop s', St s0 (loop.breaks ++ loop.continues ++ ps) ts s' → Sat (f loop) s' Q) :
     Sat (withLoop body >>= f) s Q := by
   apply Sat.bind
@@ -113,7 +119,7 @@ theorem st_withLoop_bind {β} {body : CM Unit} {f : Loop → CM β} {s0 s : CSta
   generalize hs1 : ({ s with loops := { lastTryCatchIndex := s.tryCatchIndex } :: s.loops } : CState) = s1
   have hi1 : Inv s1 := by
     subst hs1
-    refine ⟨hst.inv.ne, hst.inv.tabs, hst.inv.walk, ?_, hst.inv.consts, hst.inv.targets⟩
+    refine ⟨hst.inv.ne, hst.inv.chain, hst.inv.walk, ?_, hst.inv.consts, hst.inv.targets, hst.inv.bok⟩
     intro l hl p hp
     simp at hl
     rcases hl with hl | hl
@@ -123,7 +129,7 @@ theorem st_withLoop_bind {β} {body : CM Unit} {f : Loop → CM β} {s0 s : CSta
   have ht1 : s1.tables = s.tables := by subst hs1; rfl
   have hl1 : s1.loops = { lastTryCatchIndex := s.tryCatchIndex } :: s.loops := by subst hs1; rfl
   apply Sat.bind
-  apply Sat.mono (hb s1 hi1)
+  apply Sat.mono (hb s1 hi1 (hstab s s1 hA (by rw [ht1]; exact ChainLE.refl _)))
   intro _ s2 ⟨hi2, hr2, _⟩
   unfold popLoop
   apply Sat.bind
@@ -143,12 +149,12 @@ theorem st_withLoop_bind {β} {body : CM Unit} {f : Loop → CM β} {s0 s : CSta
   apply h
   have hsz : s.insts.size ≤ s2.insts.size := by rw [← hin1]; exact hr2.pre.1
   have hpre : Pre s.insts s2.insts := by rw [← hin1]; exact hr2.pre
-  refine ⟨⟨hi2.ne, hi2.tabs, hi2.walk, ?_, hi2.consts, hi2.targets⟩, ?_, ?_, ?_⟩
+  refine ⟨⟨hi2.ne, hi2.chain, hi2.walk, ?_, hi2.consts, hi2.targets, hi2.bok⟩, ?_, ?_, ?_⟩
   · intro l hl p hp
     exact hi2.loops l (by rw [hl2]; simp [hl]) p hp
   · have hc1 : s1.constants = s.constants := by subst hs1; rfl
-    refine ⟨by rw [← hst.rel.tlen, ← ht1]; exact hr2.tlen, hst.rel.pre.trans hpre, hst.rel.llen, hst.rel.ltail, ?_,
-      Nat.le_trans hst.rel.csz (by rw [← hc1]; exact hr2.csz)⟩
+    refine ⟨hst.rel.chain.trans (by rw [← ht1]; exact hr2.chain), hst.rel.pre.trans hpre, hst.rel.llen, hst.rel.ltail, ?_,
+      hst.rel.cpre.trans (by rw [← hc1]; exact hr2.cpre)⟩
     intro l l' h1 h2 p
     have := hst.rel.lhead l l' h1 h2 p
     exact this
@@ -169,6 +175,12 @@ theorem st_withLoop_bind {β} {body : CM Unit} {f : Loop → CM β} {s0 s : CSta
   · intro t ht
     exact (hst.tgt t ht).pre hpre
 
+
+theorem st_withLoop_bind {β} {body : CM Unit} {f : Loop → CM β} {s0 s : CState} {ps ts : List Nat}
+    {Q : β → CState → Prop} (hb : Good body) (hst : St s0 ps ts s)
+    (h : ∀ loop s', St s0 (loop.breaks ++ loop.continues ++ ps) ts s' → Sat (f loop) s' Q) :
+    Sat (withLoop body >>= f) s Q :=
+  st_withLoop_bindA (fun _ => True) trivial (fun _ _ _ _ => trivial) (fun s1 h1 _ => hb s1 h1) hst h
 
 /-! ### a small tactic for compositional goals `Good (do …)` -/
 
@@ -196,8 +208,7 @@ macro_rules | `(tactic| good_leaf) => `(tactic| first
   | with_reducible exact good_addConstant _
   | with_reducible exact good_get | with_reducible exact good_curPos
   | with_reducible exact good_currentLoop | with_reducible exact good_headTable
-  | with_reducible exact (goodP_resolve _).good
-  | with_reducible exact good_updateMaxDefs _
+  | with_reducible exact good_resolve _
   | (with_reducible apply good_withBlock) | (with_reducible apply good_blockOf))
 
 syntax "good_bind" : tactic
@@ -206,47 +217,159 @@ macro_rules | `(tactic| good_bind) => `(tactic| (refine GoodP.bind (P := fun _ =
 syntax "good" : tactic
 macro_rules | `(tactic| good) => `(tactic| repeat' (first | good_leaf | good_bind | split))
 
-theorem argsOK_const {nc : Nat} {a : Array UInt8} {op : Nat} {i : Nat} {rest : List Int}
-    (hc : isConstOp op = true) (hi : i < nc) : ArgsOK nc a op ((i : Int) :: rest) := by
-  have hnj : ¬ (isJumpOp op = true) := by
-    rcases isConstOp_cases hc with h | h <;> subst h <;> decide
-  have hnt : op ≠ OpSetupTry := by
-    rcases isConstOp_cases hc with h | h <;> subst h <;> decide
-  exact ⟨fun h => absurd h hnj, fun h => absurd h hnt, fun _ => ⟨i, rest, rfl, hi⟩⟩
+
+/-! ### index operands -/
+
+theorem opnd_free {L : Lims} {op n : Nat} (hop : isFreeOp op = true) (h : n < L.nf) : Opnd1OK L op n := by
+  have hcases : op = OpGetFree ∨ op = OpSetFree ∨ op = OpGetFreePtr := by
+    simpa [isFreeOp, or_assoc] using hop
+  refine ⟨fun _ => h, ?_, ?_, ?_, ?_⟩
+  all_goals (intro c; rcases hcases with rfl | rfl | rfl <;> first | cases c | (revert c; decide))
+
+theorem opnd_builtin {L : Lims} {n : Nat} (h : n < NB) : Opnd1OK L OpGetBuiltin n := by
+  refine ⟨?_, fun _ => h, ?_, ?_, ?_⟩
+  all_goals (intro c; first | cases c | (revert c; decide))
+
+theorem opnd_global {L : Lims} {op n : Nat} (hop : isGlobalOp op = true) (h : ∃ b, L.cs[n]? = some (.val (.str b))) :
+    Opnd1OK L op n := by
+  have hcases : op = OpGetGlobal ∨ op = OpSetGlobal := by simpa [isGlobalOp] using hop
+  refine ⟨?_, ?_, fun _ => h, ?_, ?_⟩
+  all_goals (intro c; rcases hcases with rfl | rfl <;> first | cases c | (revert c; decide))
+
+theorem sat_emit_free {pos : Pos} {op : Nat} {y : Symbol} {s : CState} (hs : Inv s) (hop : isFreeOp op = true)
+    (hy : SymOKx s.constants (fmd s.tables) (fnf s.tables) y) (hsc : y.scope = .free) :
+    Sat (emit_ pos op [y.index]) s (fun _ s' => Inv s' ∧ Rel s s' ∧ True) := by
+  have hcases : op = OpGetFree ∨ op = OpSetFree ∨ op = OpGetFreePtr := by simpa [isFreeOp, or_assoc] using hop
+  obtain ⟨n, hn, hlt⟩ := hy.2.2.1 hsc
+  refine sat_emit_idx hs ?_ ?_ ?_ ?_ ?_
+  · rcases hcases with rfl | rfl | rfl <;> decide
+  · rcases hcases with rfl | rfl | rfl <;> rfl
+  · rcases hcases with rfl | rfl | rfl <;> decide
+  · rcases hcases with rfl | rfl | rfl <;> decide
+  · intro m hm
+    have : m = n := by rw [hn] at hm; exact_mod_cast hm.symm
+    subst this
+    exact opnd_free hop hlt
+
+theorem sat_emit_global {pos : Pos} {op : Nat} {y : Symbol} {s : CState} (hs : Inv s) (hop : isGlobalOp op = true)
+    (hy : SymOKx s.constants (fmd s.tables) (fnf s.tables) y) (hsc : y.scope = .global) :
+    Sat (emit_ pos op [y.index]) s (fun _ s' => Inv s' ∧ Rel s s' ∧ True) := by
+  have hcases : op = OpGetGlobal ∨ op = OpSetGlobal := by simpa [isGlobalOp] using hop
+  refine sat_emit_idx hs ?_ ?_ ?_ ?_ ?_
+  · rcases hcases with rfl | rfl <;> decide
+  · rcases hcases with rfl | rfl <;> rfl
+  · rcases hcases with rfl | rfl <;> decide
+  · rcases hcases with rfl | rfl <;> decide
+  · intro m hm
+    rcases hy.2.2.2.2 hsc with h | ⟨n, b, hn, hb⟩
+    · rw [h] at hm; omega
+    · have : m = n := by rw [hn] at hm; exact_mod_cast hm.symm
+      subst this
+      exact opnd_global hop ⟨b, hb⟩
+
+theorem sat_emit_builtin {pos : Pos} {i : Int} {s : CState} (hs : Inv s) (hi : ∃ n : Nat, i = (n : Int) ∧ n < NB) :
+    Sat (emit_ pos OpGetBuiltin [i]) s (fun _ s' => Inv s' ∧ Rel s s' ∧ True) := by
+  obtain ⟨n, hn, hlt⟩ := hi
+  refine sat_emit_idx hs (by decide) rfl (by decide) (by decide) ?_
+  intro m hm
+  have : m = n := by rw [hn] at hm; exact_mod_cast hm.symm
+  subst this
+  exact opnd_builtin hlt
+
+
+/-! ### constants -/
+
+/-- the free-variable operands of a stream that is fine for `nf` free variables -/
+theorem freeBound_of_targets {L : Lims} {a : Array UInt8} (h : TargetsOK L a) : FreeBound L.nf a := by
+  intro p op hbd hop hf
+  have hcases : op.toNat = OpGetFree ∨ op.toNat = OpSetFree ∨ op.toNat = OpGetFreePtr := by
+    simpa [isFreeOp, or_assoc] using hf
+  have hw : operandWidths op.toNat = [1] := by rcases hcases with h | h | h <;> rw [h] <;> rfl
+  exact ((h p op hbd hop).2.2.1 1 [] hw).1 hf
 
 theorem good_emitConstant (pos : Pos) (v : CVal) : Good (emitConstant pos v) := by
   intro s hs
   unfold emitConstant
   apply Sat.bind
   apply sat_addConstant hs
-  intro i s1 hi1 hr1 hlt _
-  unfold emit_
-  apply Sat.bind
-  apply sat_emit hi1 (by decide) (argsOK_const (by decide) hlt)
-  intro s2 hi2 hr2 _ _ _
-  exact Sat.pure ⟨hi2, hr1.trans hr2, trivial⟩
+  intro i s1 hi1 hr1 _ _ ⟨v', hv', _⟩
+  apply Sat.mono (sat_emit_idx hi1 (by decide) rfl (by decide) (by decide) ?_)
+  · intro _ s2 ⟨hi2, hr2, _⟩
+    exact ⟨hi2, hr1.trans hr2, trivial⟩
+  · intro n hn
+    have hn' : n = i := by exact_mod_cast hn.symm
+    subst hn'
+    have hlt : n < s1.constants.size := by
+      rcases Nat.lt_or_ge n s1.constants.size with h | h
+      · exact h
+      · simp [Array.getElem?_eq_none h] at hv'
+    refine ⟨?_, ?_, ?_, fun _ => hlt, ?_⟩
+    · intro c; exact absurd c (by decide)
+    · intro c; exact absurd c (by decide)
+    · intro c; exact absurd c (by decide)
+    · intro _ f hf
+      simp only [limsOf] at hf
+      rw [hv'] at hf; cases hf
 
 macro_rules | `(tactic| good_leaf) => `(tactic| with_reducible exact good_emitConstant _ _)
 
-/-- `emitFnConstant` for a function that is well formed w.r.t. the current constant pool -/
+/-- `emitFnConstant` for a finished function with `nfree` free variables -/
 theorem sat_emitFnConstant {pos : Pos} {fn : CFn} {nfree : Nat} {s : CState} (hs : Inv s)
-    (hf : FnOK s.constants.size fn) :
+    (hl : fn.numLocals ≤ 256) (hf : FinFn s.constants nfree fn) :
     Sat (emitFnConstant pos fn nfree) s (fun _ s' => Inv s' ∧ Rel s s' ∧ True) := by
   unfold emitFnConstant
   apply Sat.bind
-  apply sat_addFnConstant hs hf
-  intro i s1 hi1 hr1 hlt _
+  apply sat_addFnConstant hs (fun cs' hc => ⟨hl, nfree, hf.mono hc⟩)
+  intro i s1 hi1 hr1 _ _ ⟨g, hg, hge⟩
+  have hfb : FreeBound nfree g.insts := by rw [hge]; exact freeBound_of_targets hf.1.1.2
+  have hlt : i < s1.constants.size := by
+    rcases Nat.lt_or_ge i s1.constants.size with h | h
+    · exact h
+    · simp [Array.getElem?_eq_none h] at hg
+  have hop1 : ∀ (op : Nat), isConstOp op = true → (op = OpConstant → nfree = 0) → ∀ n : Nat, (i : Int) = (n : Int) →
+      Opnd1OK (limsOf s1) op n := by
+    intro op hc hz n hn
+    have hn' : n = i := by exact_mod_cast hn.symm
+    subst hn'
+    have hcases := isConstOp_cases hc
+    refine ⟨?_, ?_, ?_, fun _ => hlt, ?_⟩
+    · intro c; rcases hcases with rfl | rfl <;> exact absurd c (by decide)
+    · intro c; rcases hcases with rfl | rfl <;> exact absurd c (by decide)
+    · intro c; rcases hcases with rfl | rfl <;> exact absurd c (by decide)
+    · intro c f hf'
+      simp only [limsOf] at hf'
+      rw [hg] at hf'
+      injection hf' with hf'
+      injection hf' with hf'
+      subst hf'
+      rw [← hz c]; exact hfb
   split
-  · unfold emit_
+  · -- CLOSURE idx nfree
+    unfold emit_
     apply Sat.bind
-    apply sat_emit hi1 (by decide) (argsOK_const (by decide) hlt)
-    intro s2 hi2 hr2 _ _ _
-    exact Sat.pure ⟨hi2, hr1.trans hr2, trivial⟩
-  · unfold emit_
-    apply Sat.bind
-    apply sat_emit hi1 (by decide) (argsOK_const (by decide) hlt)
-    intro s2 hi2 hr2 _ _ _
-    exact Sat.pure ⟨hi2, hr1.trans hr2, trivial⟩
+    apply sat_emit hi1 (by decide)
+    · refine ⟨fun c => absurd c (by decide), fun c => absurd c (by decide), ?_, ?_⟩
+      · intro n rest hn
+        injection hn with hn _
+        exact hop1 OpClosure (by decide) (fun c => absurd c (by decide)) n hn
+      · intro _ i' n' hargs
+        injection hargs with h1 h2
+        injection h2 with h2 _
+        have e1 : i' = i := by exact_mod_cast h1.symm
+        have e2 : n' = nfree := by exact_mod_cast h2.symm
+        subst e1 e2
+        exact ⟨g, hg, hfb⟩
+    · intro s2 hi2 hr2 _ _ _ _ _
+      exact Sat.pure ⟨hi2, hr1.trans hr2, trivial⟩
+  · rename_i hz
+    have hz' : nfree = 0 := by omega
+    apply Sat.mono (sat_emit_idx hi1 (by decide) rfl (by decide) (by decide)
+      (fun n hn => hop1 OpConstant (by decide) (fun _ => hz') n hn))
+    intro _ s2 ⟨hi2, hr2, _⟩
+    exact ⟨hi2, hr1.trans hr2, trivial⟩
+
+
+/-! ### symbol-table operations -/
 
 theorem good_findSymbolSelf (name : String) : Good (findSymbolSelf name) := by
   unfold findSymbolSelf; good
@@ -254,34 +377,165 @@ theorem good_findSymbolSelf (name : String) : Good (findSymbolSelf name) := by
 theorem good_hasAnyConstLit : Good hasAnyConstLit := by
   unfold hasAnyConstLit; good
 
-theorem good_defineLocal (name : String) : Good (defineLocal name) := by
-  unfold defineLocal
-  good
-  exact good_modHead fun t ht => by simpa using putSym_ok (by intro hc; simp at hc) ht
+theorem lookupSym_putSym_self (n : String) (y : Symbol) : ∀ st : List (String × Symbol), lookupSym n (putSym n y st) = some y
+  | [] => by simp [putSym, lookupSym]
+  | (k, v) :: r => by
+    simp only [putSym]
+    split
+    · simp [lookupSym]
+    · rename_i h
+      simp only [lookupSym, h]
+      exact lookupSym_putSym_self n y r
 
-theorem good_setParamsLoop (pos : Pos) : ∀ (ps : List String) (k : Nat), Good (setParamsLoop pos ps k)
-  | [], _ => by unfold setParamsLoop; good
-  | p :: r, k => by
-    have := good_setParamsLoop pos r (k + 1)
-    have hk : Good (modHead fun t => { t with numParams := k }) := good_modHead fun t ht => ht
+theorem updateMaxDefs_head (n : Nat) (t : Table) (r : List Table) :
+    ∃ t' r', updateMaxDefs n (t :: r) = t' :: r' ∧ t'.store = t.store ∧ t'.numDefinition = t.numDefinition ∧
+      t'.numParams = t.numParams ∧ n ≤ t'.maxDefinition ∧ t.maxDefinition ≤ t'.maxDefinition := by
+  simp only [updateMaxDefs]
+  split
+  · refine ⟨_, _, rfl, ?_⟩; split <;> simp <;> omega
+  · refine ⟨_, _, rfl, ?_⟩; split <;> simp <;> omega
+
+theorem nextIndex_ge (t : Table) (r : List Table) : t.numDefinition ≤ nextIndex (t :: r) := by
+  simp only [nextIndex]; split <;> omega
+
+theorem runCM_modTables (g : List Table → List Table) (s : CState) :
+    runCM (modTables g) s = (.ok (), { s with tables := g s.tables }) := rfl
+
+theorem runCM_modHead (f : Table → Table) {s : CState} {t : Table} {r : List Table} (h : s.tables = t :: r) :
+    runCM (modHead f) s = (.ok (), { s with tables := f t :: r }) := by
+  unfold modHead
+  rw [runCM_modTables, h]
+
+
+/-- the state after `DefineLocal` / `SetParams` created a new local symbol `name` in the head table -/
+theorem defineNew_state {name : String} {s : CState} {t : Table} {r : List Table} (hs : Inv s) (htr : s.tables = t :: r)
+    (s2 : CState) (hs2 : s2 = { s with tables := updateMaxDefs (nextIndex s.tables + 1) (shadowBuiltin s.builtins name { t with numDefinition := t.numDefinition + 1, store := putSym name { name := name, index := (nextIndex s.tables : Int), scope := Scope.local_ } t.store } :: r) }) :
+    Inv s2 ∧ Rel s s2 ∧ ∃ t' r', s2.tables = t' :: r' ∧
+      lookupSym name t'.store = some { name := name, index := (nextIndex s.tables : Int), scope := Scope.local_ } ∧
+      t'.numDefinition = t.numDefinition + 1 ∧ t.numDefinition + 1 ≤ t'.maxDefinition ∧ t'.numParams = t.numParams ∧
+      nextIndex s.tables < fmd s2.tables := by
+  subst hs2
+  generalize hsym : ({ name := name, index := (nextIndex s.tables : Int), scope := Scope.local_ } : Symbol) = sym
+  generalize ht1 : shadowBuiltin s.builtins name { t with numDefinition := t.numDefinition + 1, store := putSym name sym t.store } = t1
+  have hst1 : t1.store = putSym name sym t.store := by subst ht1; simp
+  have hnd1 : t1.numDefinition = t.numDefinition + 1 := by subst ht1; simp
+  have hnp1 : t1.numParams = t.numParams := by subst ht1; simp
+  have hmd1 : t1.maxDefinition = t.maxDefinition := by subst ht1; simp
+  have hb1 : t1.block = t.block := by subst ht1; simp
+  have hf1 : t1.frees = t.frees := by subst ht1; simp
+  have hch : ChainOK s.constants (t :: r) := by rw [← htr]; exact hs.chain
+  obtain ⟨c1, c2⟩ := chain_define (name := name) (sym := sym) (idx := nextIndex s.tables) hch hb1 hmd1 hf1 hnp1 hst1
+    (by subst hsym; rfl) (by subst hsym; rfl)
+  obtain ⟨t', r', hu, hst', hnd', hnp', hge, hmd'⟩ := updateMaxDefs_head (nextIndex s.tables + 1) t1 r
+  have hni := nextIndex_ge t r
+  rw [← htr] at hni c2
+  -- the new index is a slot of the function
+  have hfm : nextIndex s.tables < fmd (updateMaxDefs (nextIndex s.tables + 1) (t1 :: r)) := by
+    have c1' := c1
+    rw [hu] at c1' ⊢
+    have hy := lookupSym_okx c1'.1 (n := name) (y := sym) (by rw [hst', hst1]; exact lookupSym_putSym_self name sym t.store)
+    obtain ⟨n, hn, hlt⟩ := hy.2.1 (by subst hsym; rfl)
+    have : n = nextIndex s.tables := by subst hsym; simp at hn; exact_mod_cast hn.symm
+    rw [← this]; exact hlt
+  refine ⟨hs.of_tables (by simp [hu]) c1 (limsOf_le_of_chain c2 rfl) rfl rfl, Rel.of_same c2 rfl rfl,
+    t', r', hu, by rw [hst', hst1]; exact lookupSym_putSym_self _ _ _, by rw [hnd', hnd1], by omega, by rw [hnp', hnp1], hfm⟩
+
+/-- `DefineLocal`: the symbol returned is stored under `name` in the head table and is in range -/
+theorem sat_defineLocal {name : String} {s : CState} {Q : Symbol × Bool → CState → Prop} (hs : Inv s)
+    (h : ∀ sym ex s', Inv s' → Rel s s' → s'.insts = s.insts →
+      (∃ t r, s'.tables = t :: r ∧ lookupSym name t.store = some sym) →
+      SymOKx s'.constants (fmd s'.tables) (fnf s'.tables) sym → sym.scope ≠ .builtin → Q (sym, ex) s') :
+    Sat (defineLocal name) s Q := by
+  obtain ⟨t, r, htr⟩ := head_of_inv hs
+  unfold defineLocal
+  apply Sat.bind
+  apply Sat.get
+  apply Sat.bind_of_run (runCM_headTable htr)
+  split
+  · rename_i sym hd
+    have hl : lookupSym name t.store = some sym ∧ sym.scope ≠ .builtin := by
+      unfold definedSym at hd
+      split at hd
+      · split at hd
+        · cases hd
+        · rename_i hnb
+          injection hd with hd; subst hd
+          exact ⟨by assumption, by simpa using hnb⟩
+      · cases hd
+    apply Sat.pure
+    have hch := hs.chain
+    rw [htr] at hch
+    exact h sym true s hs (Rel.refl s) rfl ⟨t, r, htr, hl.1⟩ (by rw [htr]; exact lookupSym_okx hch.1 hl.1) hl.2
+  · rename_i hl
+    apply Sat.bind_of_run (runCM_modHead _ htr)
+    apply Sat.bind_of_run (runCM_modTables _ _)
+    apply Sat.pure
+    obtain ⟨hi2, hr2, t', r', hu, hlk, _, _, _, hfm⟩ := defineNew_state (name := name) hs htr _ rfl
+    exact h _ false _ hi2 hr2 rfl ⟨t', r', hu, hlk⟩ (symOKx_local rfl rfl hfm) (by simp)
+
+theorem good_defineLocal (name : String) : Good (defineLocal name) :=
+  fun _ hs => sat_defineLocal hs fun _ _ _ h1 h2 _ _ _ _ => ⟨h1, h2, trivial⟩
+
+macro_rules | `(tactic| good_leaf) => `(tactic| with_reducible exact good_defineLocal _)
+
+/-- the loop of `SetParams`: `k` parameters are defined so far -/
+theorem sat_setParamsLoop (pos : Pos) : ∀ (ps : List String) (k : Nat) (s : CState), Inv s →
+    (∃ t r, s.tables = t :: r ∧ k ≤ t.numDefinition ∧ k ≤ t.maxDefinition) →
+    Sat (setParamsLoop pos ps k) s (fun _ s' => Inv s' ∧ Rel s s' ∧
+      ∃ t r, s'.tables = t :: r ∧ k + ps.length ≤ t.maxDefinition)
+  | [], k, s, hs, ⟨t, r, htr, _, hk⟩ => by
     unfold setParamsLoop
-    good
-    exact good_modHead fun t ht => by simpa using putSym_ok (by intro hc; simp at hc) ht
+    exact Sat.pure ⟨hs, Rel.refl s, t, r, htr, by simpa using hk⟩
+  | p :: rest, k, s, hs, ⟨t, r, htr, hk1, hk2⟩ => by
+    unfold setParamsLoop
+    apply Sat.bind
+    apply Sat.get
+    apply Sat.bind_of_run (runCM_headTable htr)
+    split
+    · apply Sat.bind_of_run (runCM_modHead _ htr)
+      exact Sat.cerr
+    · apply Sat.bind_of_run (runCM_modHead _ htr)
+      apply Sat.bind_of_run (runCM_modTables _ _)
+      obtain ⟨hi2, hr2, t', r', hu, _, hnd, hmd, _, _⟩ := defineNew_state (name := p) hs htr _ rfl
+      apply Sat.mono (sat_setParamsLoop pos rest (k + 1) _ hi2 ⟨t', r', hu, by omega, by omega⟩)
+      intro _ s3 ⟨hi3, hr3, t3, r3, h3, hle⟩
+      exact ⟨hi3, hr2.trans hr3, t3, r3, h3, by simp only [List.length_cons]; omega⟩
+
+theorem chain_setNumParams {cs : Array Const} {t : Table} {r : List Table} (h : ChainOK cs (t :: r)) (n : Nat)
+    (hn : n ≤ t.maxDefinition) : ChainOK cs ({ t with numParams := n } :: r) := by
+  obtain ⟨h1, _, h3, h4, h5⟩ := h
+  exact ⟨h1, hn, h3, h4, h5⟩
 
 theorem good_setParams (pos : Pos) (ps : List String) : Good (setParams pos ps) := by
-  have := good_setParamsLoop pos ps 0
+  intro s hs
+  obtain ⟨t, r, htr⟩ := head_of_inv hs
   unfold setParams
-  good
-  exact good_modHead fun t ht => ht
+  split
+  · exact Sat.pure ⟨hs, Rel.refl s, trivial⟩
+  · apply Sat.bind_of_run (runCM_headTable htr)
+    split
+    · exact Sat.cerr
+    · split
+      · exact Sat.cerr
+      · apply Sat.bind
+        apply Sat.mono (sat_setParamsLoop pos ps 0 s hs ⟨t, r, htr, Nat.zero_le _, Nat.zero_le _⟩)
+        intro _ s1 ⟨hi1, hr1, t1, r1, h1, hle⟩
+        apply Sat.of_run (runCM_modHead _ h1)
+        have hch : ChainOK s1.constants (t1 :: r1) := by rw [← h1]; exact hi1.chain
+        have hle2 : ChainLE s1.tables ({ t1 with numParams := ps.length } :: r1) := by
+          rw [h1]; exact chainLE_replaceHead rfl rfl rfl
+        exact ⟨hi1.of_tables (by simp) (chain_setNumParams hch _ (by simpa using hle)) (limsOf_le_of_chain hle2 rfl) rfl rfl,
+          hr1.trans (Rel.of_same hle2 rfl rfl), trivial⟩
+
+macro_rules | `(tactic| good_leaf) => `(tactic| with_reducible exact good_setParams _ _)
 
 theorem good_defineConstLitSym (name : String) {v : Option CVal} (hv : v.isSome = true) :
     Good (defineConstLitSym name v) := by
   unfold defineConstLitSym
   good
-  exact good_modHead fun t ht => by
-    simpa using putSym_ok (y := { name := name, index := -1, scope := .constLit, constant := true, constLit := v })
-      (by intro _; exact ⟨rfl, hv⟩) ht
-
+  exact good_modHead fun cs nl nf t ht => by
+    simpa using putSym_okx (y := { name := name, index := -1, scope := .constLit, constant := true, constLit := v })
+      (symOKx_constLit rfl rfl hv) ht
 
 theorem goodP_get_inv : GoodP (fun st => Inv st) (get : CM CState) := fun s hs => Sat.get ⟨hs, Rel.refl s, hs⟩
 
@@ -305,10 +559,10 @@ theorem good_defineConstLit (name : String) (v : VSum) : Good (defineConstLit na
           · refine GoodP.bind goodP_get_inv fun st hst => ?_
             split
             · rename_i s1 hf
-              have hok := findByNameAll_ok hst.tabs hf
               split
               · rename_i hsc
-                have := good_defineConstLitSym name (v := s1.constLit) (hok (by simpa using hsc)).2
+                have hok := findByNameAll_ok hst.chain hf (by simpa using hsc)
+                have := good_defineConstLitSym name (v := s1.constLit) hok.2
                 good
               · good
             · good
@@ -316,75 +570,7 @@ theorem good_defineConstLit (name : String) (v : VSum) : Good (defineConstLit na
         · good
     · good
 
-theorem lookupSym_putSym_self (n : String) (y : Symbol) : ∀ st : List (String × Symbol), lookupSym n (putSym n y st) = some y
-  | [] => by simp [putSym, lookupSym]
-  | (k, v) :: r => by
-    simp only [putSym]
-    split
-    · simp [lookupSym]
-    · rename_i h
-      simp only [lookupSym, h]
-      exact lookupSym_putSym_self n y r
-
-theorem updateMaxDefs_head (n : Nat) (t : Table) (r : List Table) :
-    ∃ t' r', updateMaxDefs n (t :: r) = t' :: r' ∧ t'.store = t.store := by
-  simp only [updateMaxDefs]
-  split
-  · refine ⟨_, _, rfl, ?_⟩; split <;> rfl
-  · refine ⟨_, _, rfl, ?_⟩; split <;> rfl
-
-theorem runCM_modTables (g : List Table → List Table) (s : CState) :
-    runCM (modTables g) s = (.ok (), { s with tables := g s.tables }) := rfl
-
-theorem runCM_modHead (f : Table → Table) {s : CState} {t : Table} {r : List Table} (h : s.tables = t :: r) :
-    runCM (modHead f) s = (.ok (), { s with tables := f t :: r }) := by
-  unfold modHead
-  rw [runCM_modTables, h]
-
-theorem sat_defineLocal {name : String} {s : CState} {Q : Symbol × Bool → CState → Prop} (hs : Inv s)
-    (h : ∀ sym ex s', Inv s' → Rel s s' →
-      (∃ t r, s'.tables = t :: r ∧ lookupSym name t.store = some sym) → SymOK sym → Q (sym, ex) s') :
-    Sat (defineLocal name) s Q := by
-  obtain ⟨t, r, htr⟩ : ∃ t r, s.tables = t :: r := by
-    cases h : s.tables with
-    | nil => exact absurd h hs.ne
-    | cons t r => exact ⟨t, r, rfl⟩
-  unfold defineLocal
-  apply Sat.bind
-  apply Sat.get
-  apply Sat.bind_of_run (runCM_headTable htr)
-  split
-  · rename_i sym hd
-    have hl : lookupSym name t.store = some sym := by
-      unfold definedSym at hd
-      split at hd
-      · split at hd
-        · cases hd
-        · injection hd with hd; subst hd; assumption
-      · cases hd
-    apply Sat.pure
-    exact h sym true s hs (Rel.refl s) ⟨t, r, htr, hl⟩ (lookupSym_ok (hs.tabs t (by simp [htr])) hl)
-  · rename_i hl
-    apply Sat.bind_of_run (runCM_modHead _ htr)
-    apply Sat.bind_of_run (runCM_modTables _ _)
-    apply Sat.pure
-    simp only
-    generalize hsym : ({ name := name, index := (nextIndex s.tables : Int), scope := Scope.local_ } : Symbol) = sym
-    have hsok : SymOK sym := by subst hsym; intro hc; simp at hc
-    generalize ht1 : shadowBuiltin s.builtins name { t with numDefinition := t.numDefinition + 1, store := putSym name sym t.store } = t1
-    have hst1 : t1.store = putSym name sym t.store := by subst ht1; simp
-    obtain ⟨t', r', hu, hst'⟩ := updateMaxDefs_head (nextIndex s.tables + 1) t1 r
-    have htabs : TablesOK (updateMaxDefs (nextIndex s.tables + 1) (t1 :: r)) := by
-      apply updateMaxDefs_ok
-      apply tablesOK_cons
-      · rw [hst1]; exact putSym_ok hsok (hs.tabs t (by simp [htr]))
-      · have := hs.tabs; rw [htr] at this; exact tablesOK_tail this
-    apply h sym false
-    · exact hs.of_tables (by simp [hu]) htabs rfl rfl
-    · exact Rel.of_same (by simp [updateMaxDefs_length, htr]) rfl rfl
-    · exact ⟨t', r', hu, by rw [hst', hst1]; exact lookupSym_putSym_self _ _ _⟩
-    · exact hsok
-
+/-! ### identifiers -/
 
 theorem good_compileDefine (pos : Pos) (ident : String) (allow : Bool) (keyword : Nat) :
     Good (compileDefine pos ident allow keyword) := by
@@ -392,7 +578,7 @@ theorem good_compileDefine (pos : Pos) (ident : String) (allow : Bool) (keyword 
   unfold compileDefine
   apply Sat.bind
   apply sat_defineLocal hs
-  intro sym ex s1 hi1 hr1 ⟨t, r, htr, hl⟩ hok
+  intro sym ex s1 hi1 hr1 _ ⟨t, r, htr, hl⟩ hok _
   simp only
   split
   · exact Sat.cerr
@@ -409,46 +595,71 @@ theorem good_compileDefine (pos : Pos) (ident : String) (allow : Bool) (keyword 
           unfold emit_
           apply Sat.bind
           apply sat_emit hi1 (by decide) (StaticArgs.argsOK (by opa) _ _)
-          intro s2 hi2 hr2 _ ht2 _
+          intro s2 hi2 hr2 _ ht2 _ _ _
           apply Sat.pure
           -- the symbol under `ident` in the head table is still `sym`, which is not a CONSTLIT symbol
           unfold updateSym
           apply Sat.of_run (runCM_modHead _ (ht2.trans htr))
           simp only [hl]
-          have hnc : sym.scope ≠ .constLit := fun h => hc (hok h).1
-          have htabs : TablesOK ({ t with store := putSym ident { sym with constant := keyword == tConst && ident != "_" } t.store } :: r) := by
-            apply tablesOK_cons
-            · exact putSym_ok (y := { sym with constant := keyword == tConst && ident != "_" })
-                (fun h => absurd h hnc) (hi2.tabs t (by rw [ht2, htr]; simp))
-            · have := hi2.tabs; rw [ht2, htr] at this; exact tablesOK_tail this
-          refine ⟨hi2.of_tables (by simp) htabs rfl rfl, hr1.trans (hr2.trans (Rel.of_same ?_ rfl rfl)), trivial⟩
-          simp [ht2, htr]
+          have hnc : sym.scope ≠ .constLit := fun h => hc (hok.1 h).1
+          have hch : ChainOK s2.constants (t :: r) := by rw [← htr, ← ht2]; exact hi2.chain
+          have hy0 := lookupSym_okx hch.1 hl
+          have hy : SymOKx s2.constants (fmd (t :: r)) (fnf (t :: r))
+              { sym with constant := keyword == tConst && ident != "_" } := ⟨fun h => absurd h hnc, hy0.2⟩
+          have hch2 := chain_putHead (t2 := { t with store := putSym ident { sym with constant := keyword == tConst && ident != "_" } t.store })
+            hch rfl rfl rfl rfl rfl hy
+          have hle : ChainLE s2.tables ({ t with store := putSym ident { sym with constant := keyword == tConst && ident != "_" } t.store } :: r) := by
+            rw [ht2, htr]; exact chainLE_replaceHead rfl rfl rfl
+          exact ⟨hi2.of_tables (by simp) hch2 (limsOf_le_of_chain hle rfl) rfl rfl,
+            hr1.trans (hr2.trans (Rel.of_same hle rfl rfl)), trivial⟩
 
-theorem good_compileAssignSym (pos : Pos) (sym : Symbol) (ident : String) : Good (compileAssignSym pos sym ident) := by
-  unfold compileAssignSym; good
+/-- `compileAssign(node, symbol, ident)` for a symbol that is in range in the current state -/
+theorem sat_compileAssignSym {pos : Pos} {sym : Symbol} {ident : String} {s : CState} (hs : Inv s)
+    (hy : SymOKx s.constants (fmd s.tables) (fnf s.tables) sym) :
+    Sat (compileAssignSym pos sym ident) s (fun _ s' => Inv s' ∧ Rel s s' ∧ True) := by
+  unfold compileAssignSym
+  split
+  · exact Sat.cerr
+  · split
+    · exact good_emit_ (by decide) (by opa) s hs
+    · exact sat_emit_free hs rfl hy ‹_›
+    · exact sat_emit_global hs rfl hy ‹_›
+    · exact Sat.cerr
 
 theorem good_emitConstLit (pos : Pos) (v : CVal) : Good (emitConstLit pos v) := by
   unfold emitConstLit; good
 
 theorem good_compileIdent (pos : Pos) (name : String) : Good (compileIdent pos name) := by
+  intro s hs
   unfold compileIdent
-  refine GoodP.bind (goodP_resolve name) fun r hr => ?_
+  apply Sat.bind
+  apply sat_resolve hs
+  intro r s1 hi1 hr1 _ _ hr
+  have hmono : ∀ {m : CM Unit}, Sat m s1 (fun _ s' => Inv s' ∧ Rel s1 s' ∧ True) →
+      Sat m s1 (fun _ s' => Inv s' ∧ Rel s s' ∧ True) :=
+    fun h => Sat.mono h fun _ _ ⟨a, b, _⟩ => ⟨a, hr1.trans b, trivial⟩
   split
-  · good
+  · apply hmono
+    have : Good (do
+        let s ← get
+        if (s.iotaVal < 0 || name != "iota") = true then cerr pos s!"unresolved reference \"{name}\""
+        else emitConstant pos (.int (BitVec.ofInt 64 s.iotaVal)) : CM Unit) := by good
+    exact this s1 hi1
   · rename_i sym
     have hok := hr sym rfl
-    have := good_emitConstLit pos
+    apply hmono
     split
-    · good
-    · good
-    · good
-    · good
+    · exact sat_emit_global hi1 rfl hok ‹_›
+    · exact good_emit_ (by decide) (by opa) s1 hi1
     · rename_i hsc
-      obtain ⟨h1, h2⟩ := hok hsc
+      exact sat_emit_builtin hi1 (hok.2.2.2.1 hsc)
+    · exact sat_emit_free hi1 rfl hok ‹_›
+    · rename_i hsc
+      obtain ⟨h1, h2⟩ := hok.1 hsc
       rw [if_pos h1]
       cases hv : sym.constLit with
       | none => rw [hv] at h2; simp at h2
-      | some v => exact this v
+      | some v => exact good_emitConstLit pos v s1 hi1
 
 theorem good_compileValueIdent (pos : Pos) (tok : Nat) (name : String) {act : CM Unit} (ha : Good act) (sum : VSum) :
     Good (compileValueIdent pos tok name act sum) := by
@@ -482,25 +693,6 @@ theorem good_declParamVariadic (pos : Pos) : ∀ l : List (Pos × String × Bool
     unfold declParamVariadic
     good
 
-theorem good_declGlobals (pos : Pos) : ∀ l : List (Pos × String × Bool), Good (declGlobals pos l)
-  | [] => by unfold declGlobals; good
-  | (_, name, _) :: rest => by
-    have := good_declGlobals pos rest
-    have hu : ∀ idx : Nat, Good (updateSym name fun y => { y with index := idx }) :=
-      fun idx => good_updateSym fun y hy => hy
-    unfold declGlobals
-    good
-    · exact hu _
-    · exact good_modHead fun t ht => by simpa using putSym_ok (by intro hc; simp at hc) ht
-    · exact hu _
-
-theorem good_emitFreePtrs (pos : Pos) : ∀ l : List Symbol, Good (emitFreePtrs pos l)
-  | [] => by unfold emitFreePtrs; good
-  | y :: r => by
-    have := good_emitFreePtrs pos r
-    unfold emitFreePtrs
-    good
-
 theorem good_defineCatchIdent (pos : Pos) (name : String) : Good (defineCatchIdent pos name) := by
   have := good_defineLocal name
   unfold defineCatchIdent; good
@@ -511,6 +703,121 @@ theorem good_forinVar (pos : Pos) (it : Int) {op : Nat} (hop : op < numOpcodes) 
   have : Good (emit_ pos op) := good_emit_ hop ha
   unfold forinVar; good
 
+/-! ### globals, free-variable pointers -/
+
+/-- `updateSym` when the symbol under `name` in the head table is known -/
+theorem sat_updateSym {name : String} {f : Symbol → Symbol} {s : CState} {t : Table} {r : List Table} {sym : Symbol}
+    (hs : Inv s) (htr : s.tables = t :: r) (hl : lookupSym name t.store = some sym)
+    (hy : SymOKx s.constants (fmd s.tables) (fnf s.tables) (f sym)) :
+    Sat (updateSym name f) s (fun _ s' => Inv s' ∧ Rel s s' ∧ True) := by
+  unfold updateSym
+  apply Sat.of_run (runCM_modHead _ htr)
+  simp only [hl]
+  have hch : ChainOK s.constants (t :: r) := by rw [← htr]; exact hs.chain
+  rw [htr] at hy
+  have hch2 := chain_putHead (t2 := { t with store := putSym name (f sym) t.store }) hch rfl rfl rfl rfl rfl hy
+  have hle : ChainLE s.tables ({ t with store := putSym name (f sym) t.store } :: r) := by
+    rw [htr]; exact chainLE_replaceHead rfl rfl rfl
+  exact ⟨hs.of_tables (by simp) hch2 (limsOf_le_of_chain hle rfl) rfl rfl, Rel.of_same hle rfl rfl, trivial⟩
+
+theorem keyEq_str {v : CVal} {b : Bytes} (h : keyEq v (.str b) = true) : ∃ b', v = .str b' := by
+  cases v <;> first | exact ⟨_, rfl⟩ | exact Bool.noConfusion h
+
+/-- the constant index of a global: `addConstant` of the name, stored into the (global) symbol -/
+theorem sat_globalIndex {name : String} {s : CState} {t : Table} {r : List Table} {sym : Symbol} {m : CM Unit}
+    (hs : Inv s) (htr : s.tables = t :: r) (hl : lookupSym name t.store = some sym) (hsc : sym.scope = .global)
+    (hm : Good m) :
+    Sat (addConstant (.str name.toUTF8.toList) >>= fun idx =>
+      (updateSym name fun y => { y with index := idx }) >>= fun _ => m) s (fun _ s' => Inv s' ∧ Rel s s' ∧ True) := by
+  apply Sat.bind
+  apply sat_addConstant hs
+  intro i s1 hi1 hr1 _ ht1 ⟨v, hv, hk⟩
+  obtain ⟨b, hb⟩ : ∃ b, v = .str b := by
+    rcases hk with hk | hk
+    · exact ⟨_, hk⟩
+    · exact keyEq_str hk
+  subst hb
+  apply Sat.bind
+  have hy : SymOKx s1.constants (fmd s1.tables) (fnf s1.tables) { sym with index := (i : Int) } :=
+    symOKx_global hsc (.inr ⟨i, b, rfl, hv⟩)
+  apply Sat.mono (sat_updateSym (f := fun y => { y with index := (i : Int) }) hi1 (ht1.trans htr) hl hy)
+  intro _ s2 ⟨hi2, hr2, _⟩
+  apply Sat.mono (hm s2 hi2)
+  intro _ s3 ⟨hi3, hr3, _⟩
+  exact ⟨hi3, hr1.trans (hr2.trans hr3), trivial⟩
+
+theorem good_declGlobals (pos : Pos) : ∀ l : List (Pos × String × Bool), Good (declGlobals pos l)
+  | [] => by unfold declGlobals; good
+  | (_, name, _) :: rest => by
+    have ih := good_declGlobals pos rest
+    intro s hs
+    obtain ⟨t, r, htr⟩ := head_of_inv hs
+    unfold declGlobals
+    apply Sat.bind
+    apply Sat.get
+    apply Sat.bind_of_run (runCM_headTable htr)
+    split
+    · rename_i sym hl
+      split
+      · exact Sat.cerr
+      · rename_i hsc
+        exact sat_globalIndex hs htr hl (by simpa using hsc) ih
+    · apply Sat.bind_of_run (runCM_modHead _ htr)
+      generalize hgs : ({ name := name, index := -1, scope := Scope.global } : Symbol) = gs
+      generalize ht1 : shadowBuiltin s.builtins name { t with store := putSym name gs t.store } = t1
+      have hch : ChainOK s.constants (t :: r) := by rw [← htr]; exact hs.chain
+      have hch1 : ChainOK s.constants (t1 :: r) :=
+        chain_putHead (n := name) (y := gs) hch (by subst ht1; simp) (by subst ht1; simp) (by subst ht1; simp)
+          (by subst ht1; simp) (by subst ht1; simp) (symOKx_global (by subst hgs; rfl) (.inl (by subst hgs; rfl)))
+      have hle : ChainLE s.tables (t1 :: r) := by
+        rw [htr]; exact chainLE_replaceHead (by subst ht1; simp) (by subst ht1; simp) (by subst ht1; simp)
+      have hi1 : Inv { s with tables := t1 :: r } := hs.of_tables (by simp) hch1 (limsOf_le_of_chain hle rfl) rfl rfl
+      apply Sat.mono (sat_globalIndex (sym := gs) hi1 rfl (by subst ht1; simp; exact lookupSym_putSym_self _ _ _)
+        (by subst hgs; rfl) ih)
+      intro _ s2 ⟨hi2, hr2, _⟩
+      exact ⟨hi2, (Rel.of_same (s' := { s with tables := t1 :: r }) hle rfl rfl).trans hr2, trivial⟩
+
+/-- `emit_` of a free-variable instruction whose index is in range -/
+theorem sat_emit_freeIdx {pos : Pos} {op : Nat} {i : Int} {s : CState} (hs : Inv s) (hop : isFreeOp op = true)
+    (hi : ∃ n : Nat, i = (n : Int) ∧ n < fnf s.tables) :
+    Sat (emit_ pos op [i]) s (fun _ s' => Inv s' ∧ Rel s s' ∧ True) := by
+  have hcases : op = OpGetFree ∨ op = OpSetFree ∨ op = OpGetFreePtr := by simpa [isFreeOp, or_assoc] using hop
+  obtain ⟨n, hn, hlt⟩ := hi
+  refine sat_emit_idx hs ?_ ?_ ?_ ?_ ?_
+  · rcases hcases with rfl | rfl | rfl <;> decide
+  · rcases hcases with rfl | rfl | rfl <;> rfl
+  · rcases hcases with rfl | rfl | rfl <;> decide
+  · rcases hcases with rfl | rfl | rfl <;> decide
+  · intro m hm
+    have : m = n := by rw [hn] at hm; exact_mod_cast hm.symm
+    subst this
+    exact opnd_free hop hlt
+
+/-- the GETLOCALPTR / GETFREEPTR instructions for the originals of a closure's free variables -/
+theorem sat_emitFreePtrs (pos : Pos) : ∀ (l : List Symbol) (s : CState), Inv s →
+    (∀ y ∈ l, OrigOK (fmd s.tables) (fnf s.tables) y) →
+    Sat (emitFreePtrs pos l) s (fun _ s' => Inv s' ∧ Rel s s' ∧ True)
+  | [], s, hs, _ => by unfold emitFreePtrs; exact Sat.pure ⟨hs, Rel.refl s, trivial⟩
+  | y :: r, s, hs, hl => by
+    unfold emitFreePtrs
+    have hrest : ∀ s1, Inv s1 → Rel s s1 → Sat (emitFreePtrs pos r) s1 (fun _ s' => Inv s' ∧ Rel s s' ∧ True) := by
+      intro s1 hi1 hr1
+      apply Sat.mono (sat_emitFreePtrs pos r s1 hi1 fun z hz =>
+        (hl z (by simp [hz])).mono hr1.chain.fmd hr1.chain.fnf)
+      intro _ s2 ⟨hi2, hr2, _⟩
+      exact ⟨hi2, hr1.trans hr2, trivial⟩
+    apply Sat.bind
+    split
+    · apply Sat.mono (good_emit_ (by decide) (by opa) s hs)
+      intro _ s1 ⟨hi1, hr1, _⟩
+      exact hrest s1 hi1 hr1
+    · rename_i hsc
+      apply Sat.mono (sat_emit_freeIdx hs rfl ((hl y (by simp)).2 hsc))
+      intro _ s1 ⟨hi1, hr1, _⟩
+      exact hrest s1 hi1 hr1
+    · exact Sat.pure (hrest s hs (Rel.refl s))
+
+/-! ### break / continue -/
 
 /-- adding a pending position to the innermost loop -/
 theorem sat_modLoop_add {f : Loop → Loop} {p : Nat} {s0 s : CState} {ps ts : List Nat} (hst : St s0 ps ts s) (hp : p ∈ ps)
@@ -519,17 +826,17 @@ theorem sat_modLoop_add {f : Loop → Loop} {p : Nat} {s0 s : CState} {ps ts : L
   unfold modLoop
   apply Sat.modify
   obtain ⟨hbd, hge⟩ := hst.pend p hp
-  have hcz := hst.rel.csz
   cases hl : s.loops with
   | nil =>
     simp only
-    refine ⟨⟨hst.inv.ne, hst.inv.tabs, hst.inv.walk, fun l h => by simp at h, hst.inv.consts, hst.inv.targets⟩,
-      ⟨hst.rel.tlen, hst.rel.pre, ?_, ?_, fun l0 l' _ h' => by simp at h', hcz⟩, trivial⟩
+    refine ⟨⟨hst.inv.ne, hst.inv.chain, hst.inv.walk, fun l h => by simp at h, hst.inv.consts, hst.inv.targets, hst.inv.bok⟩,
+      ⟨hst.rel.chain, hst.rel.pre, ?_, ?_, fun l0 l' _ h' => by simp at h', hst.rel.cpre⟩, trivial⟩
     · have := hst.rel.llen; rw [hl] at this; simpa using this
     · have := hst.rel.ltail; rw [hl] at this; simpa using this
   | cons l r =>
     simp only [hl]
-    refine ⟨⟨hst.inv.ne, hst.inv.tabs, hst.inv.walk, ?_, hst.inv.consts, hst.inv.targets⟩, ⟨hst.rel.tlen, hst.rel.pre, ?_, ?_, ?_, hcz⟩, trivial⟩
+    refine ⟨⟨hst.inv.ne, hst.inv.chain, hst.inv.walk, ?_, hst.inv.consts, hst.inv.targets, hst.inv.bok⟩,
+      ⟨hst.rel.chain, hst.rel.pre, ?_, ?_, ?_, hst.rel.cpre⟩, trivial⟩
     · intro l' hl' q hq
       simp at hl'
       rcases hl' with hl' | hl'
@@ -581,69 +888,86 @@ theorem good_compileBranch (pos : Pos) (tok : Nat) : Good (compileBranch pos tok
       · exact sat_modLoop_add (p := s3.insts.size) hst (by simp) (fun l q => by simp; exact fun h => .inl h)
   · exact Sat.cerr
 
-theorem good_finishTail (lastOp : Nat) (pend : List Nat) : Good (finishTail lastOp pend) := by
-  unfold finishTail; good
 
-theorem good_finishFn : Good finishFn := by
-  intro s hs
-  unfold finishFn
-  apply Sat.bind
-  apply Sat.get
-  have := scanFn_some (s.insts.size + 1) 0 0 [] hs.walk
-  cases hsc : scanFn s.insts (s.insts.size + 1) 0 0 [] with
-  | none => rw [hsc] at this; simp at this
-  | some r => exact good_finishTail r.1 r.2 s hs
+/-! ### functions -/
 
-/-- `GoodS`: like `GoodP`, with a result condition that may mention the final state -/
-def GoodS {α} (P : α → CState → Prop) (m : CM α) : Prop :=
-  ∀ s, Inv s → Sat m s (fun a s' => Inv s' ∧ Rel s s' ∧ P a s')
-
-theorem goodS_finishTail (lastOp : Nat) (pend : List Nat) :
-    GoodS (fun fn s' => StreamOK s'.constants.size fn.insts) (finishTail lastOp pend) := by
-  intro s hs
+/-- `finishTail` on the result of the scan of the current stream, in a function table -/
+theorem sat_finishTail (lastOp : Nat) (pend : List Nat) (s : CState) (hs : Inv s) {t : Table} {r : List Table}
+    (htr : s.tables = t :: r) (hnb : t.block = false)
+    (hp : PendOK s.insts s.insts.size pend)
+    (hl : (s.insts.size = 0 ∧ lastOp = 0) ∨ LastAt s.insts s.insts.size lastOp) :
+    Sat (finishTail lastOp pend) s (fun fn s' => Inv s' ∧ Rel s s' ∧ s'.tables = s.tables ∧
+      FinFn s'.constants t.frees.length fn) := by
+  have hlims : ∀ s' : CState, s'.tables = s.tables → limsOf s' = ⟨s'.constants, t.maxDefinition, t.frees.length⟩ := by
+    intro s' h'
+    simp only [limsOf, h', htr, fmd_cons_fn hnb, fnf_cons_fn hnb]
   unfold finishTail
-  have h1 : Good (if (lastOp != OpReturn || !pend.isEmpty) = true then emit_ 0 OpReturn [0] else Pure.pure ()) := by good
-  apply Sat.bind
-  apply Sat.mono (h1 s hs)
-  intro _ s1 ⟨hi1, hr1, _⟩
-  apply Sat.bind
-  apply Sat.get
-  apply Sat.bind
-  apply Sat.mono (good_headTable s1 hi1)
-  intro t s2 ⟨hi2, hr2, _⟩
-  apply Sat.pure
-  refine ⟨hi2, hr1.trans hr2, ?_⟩
-  exact ⟨hi1.walk, hi1.targets.mono hr2.csz⟩
+  by_cases hc : (lastOp != OpReturn || !pend.isEmpty) = true
+  · rw [if_pos hc]
+    unfold emit_
+    apply Sat.bind
+    apply Sat.bind
+    apply sat_emit hs (by decide) (StaticArgs.argsOK (by opa) _ _)
+    intro s1 hi1 hr1 hbd ht1 ⟨opb, hget, hopb⟩ hsz _
+    apply Sat.pure
+    apply Sat.bind
+    apply Sat.get
+    apply Sat.bind_of_run (runCM_headTable (ht1.trans htr))
+    apply Sat.pure
+    have hch := hi1.chain
+    rw [ht1, htr] at hch
+    refine ⟨hi1, hr1, ht1, ⟨⟨hi1.walk, ?_⟩, ?_, ?_⟩, hch.2.1⟩
+    · have := hi1.targets; rw [hlims s1 ht1] at this; exact this
+    · exact jumpsStrict_append hs.targets hs.walk hr1.pre (by rw [hsz, hopb]) hget (by rw [hopb]; rfl) (by rw [hopb]; decide)
+    · exact endsInReturn_append hs.walk hr1.pre (by rw [hsz, hopb]) hget hopb
+  · rw [if_neg hc]
+    have hc' : lastOp = OpReturn ∧ pend = [] := by
+      simp only [Bool.or_eq_true, bne_iff_ne, ne_eq, Bool.not_eq_true', not_or, Decidable.not_not, Bool.not_eq_false] at hc
+      exact ⟨hc.1, by simpa using hc.2⟩
+    obtain ⟨hlo, hpe⟩ := hc'
+    subst hpe
+    apply Sat.bind
+    apply Sat.pure
+    apply Sat.bind
+    apply Sat.get
+    apply Sat.bind_of_run (runCM_headTable htr)
+    apply Sat.pure
+    have hch := hs.chain
+    rw [htr] at hch
+    refine ⟨hs, Rel.refl s, rfl, ⟨⟨hs.walk, ?_⟩, jumpsStrict_of_pend hs.targets hp, ?_⟩, hch.2.1⟩
+    · have := hs.targets; rw [hlims s rfl] at this; exact this
+    · rcases hl with ⟨_, h0⟩ | hl
+      · rw [hlo] at h0; cases h0
+      · rw [hlo] at hl; exact hl
 
-theorem goodS_finishFn : GoodS (fun fn s' => StreamOK s'.constants.size fn.insts) finishFn := by
-  intro s hs
+theorem sat_finishFn (s : CState) (hs : Inv s) {t : Table} {r : List Table} (htr : s.tables = t :: r) (hnb : t.block = false) :
+    Sat finishFn s (fun fn s' => Inv s' ∧ Rel s s' ∧ s'.tables = s.tables ∧ FinFn s'.constants t.frees.length fn) := by
   unfold finishFn
   apply Sat.bind
   apply Sat.get
   have := scanFn_some (s.insts.size + 1) 0 0 [] hs.walk
   cases hsc : scanFn s.insts (s.insts.size + 1) 0 0 [] with
   | none => rw [hsc] at this; simp at this
-  | some r => exact goodS_finishTail r.1 r.2 s hs
+  | some r =>
+    obtain ⟨l, P⟩ := r
+    have hspec := scanFn_spec (s.insts.size + 1) 0 0 [] l P (.refl 0) hs.walk (by omega)
+      (fun q t _ hq _ => by omega) (.inl rfl) hsc
+    exact sat_finishTail l P s hs htr hnb hspec.1 hspec.2
 
+theorem chainLE_cons_left {t : Table} {r ts' : List Table} (h : ChainLE (t :: r) ts') :
+    ∃ t' r', ts' = t' :: r' ∧ t'.block = t.block ∧ ChainLE r r' := by
+  cases ts' with
+  | nil => exact absurd h (by simp [ChainLE])
+  | cons t' r' => exact ⟨t', r', rfl, h.1, h.2.2.2⟩
+
+/-- `withFn`: the function returned is finished for as many free variables as its table lists,
+    and the originals of those are in range in the enclosing function -/
 theorem goodS_withFn (pos : Pos) (variadic : Bool) (params : List String) {body : CM Unit} (hb : Good body) :
-    GoodS (fun r s' => StreamOK s'.constants.size r.1.insts) (withFn pos variadic params body) := by
+    GoodS (fun r s' => FinFn s'.constants r.2.frees.length r.1 ∧
+      ∀ y ∈ r.2.frees, OrigOK (fmd s'.tables) (fnf s'.tables) y) (withFn pos variadic params body) := by
   intro s hs
-  obtain ⟨t, r, htr⟩ : ∃ t r, s.tables = t :: r := by
-    cases h : s.tables with
-    | nil => exact absurd h hs.ne
-    | cons t r => exact ⟨t, r, rfl⟩
+  obtain ⟨t, r, htr⟩ := head_of_inv hs
   unfold withFn
-  apply Sat.bind_of_run (runCM_forkTable false htr)
-  generalize hs1 : ({ s with tables := _ :: s.tables } : CState) = s1
-  have hi1 : Inv s1 := by
-    subst hs1
-    exact hs.of_tables (by simp) (tablesOK_cons storeOK_nil hs.tabs) rfl rfl
-  have ht1 : s1.tables.length = s.tables.length + 1 := by subst hs1; simp
-  have hin1 : s1.insts = s.insts := by subst hs1; rfl
-  have hl1 : s1.loops = s.loops := by subst hs1; rfl
-  apply Sat.bind
-  apply Sat.mono (good_setParams pos params s1 hi1)
-  intro _ s2 ⟨hi2, hr2, _⟩
   unfold enterFn
   apply Sat.bind
   apply Sat.bind
@@ -651,22 +975,39 @@ theorem goodS_withFn (pos : Pos) (variadic : Bool) (params : List String) {body 
   apply Sat.bind
   apply Sat.set
   apply Sat.pure
-  generalize hs3 : ({ s2 with insts := #[], sourceMap := [], loops := [], tryCatchIndex := -1, iotaVal := -1, variadic := variadic } : CState) = s3
-  have hi3 : Inv s3 := by
-    subst hs3
-    exact ⟨hi2.ne, hi2.tabs, Walk.refl 0, fun l hl => by simp at hl, hi2.consts,
-      fun p op hbd _ => absurd hbd.2 (by simp)⟩
-  have ht3 : s3.tables = s2.tables := by subst hs3; rfl
+  generalize hs1 : ({ s with insts := #[], sourceMap := [], loops := [], tryCatchIndex := -1, iotaVal := -1, variadic := variadic } : CState) = s1
+  have ht1 : s1.tables = s.tables := by subst hs1; rfl
+  have hc1 : s1.constants = s.constants := by subst hs1; rfl
+  have hin1 : s1.insts = #[] := by subst hs1; rfl
+  have hl1 : s1.loops = [] := by subst hs1; rfl
+  have hb1 : s1.builtins = s.builtins := by subst hs1; rfl
+  apply Sat.bind_of_run (runCM_forkTable false (ht1.trans htr))
+  generalize htn : ({ block := false, disableParams := t.disableParams, hasParentConstLit := t.hasConstLit || t.hasParentConstLit } : Table) = tn
+  have hblk : tn.block = false := by subst htn; rfl
+  generalize hs2 : ({ s1 with tables := tn :: s1.tables } : CState) = s2
+  have ht2 : s2.tables = tn :: s.tables := by subst hs2; rw [← ht1]
+  have hc2 : s2.constants = s.constants := by subst hs2; exact hc1
+  have hin2 : s2.insts = #[] := by subst hs2; exact hin1
+  have hl2 : s2.loops = [] := by subst hs2; exact hl1
+  have hb2 : s2.builtins = s.builtins := by subst hs2; exact hb1
+  have hi2 : Inv s2 := by
+    refine ⟨by rw [ht2]; simp, ?_, by rw [hin2]; exact Walk.refl 0, by rw [hl2]; intro l hl; simp at hl, by rw [hc2]; exact hs.consts,
+      ?_, by rw [hb2]; exact hs.bok⟩
+    · rw [ht2, hc2]; exact chain_fork hs.chain hs.ne tn (by subst htn; rfl) (by subst htn; rfl) (by subst htn; rfl)
+    · rw [hin2]; intro p op hbd _; exact absurd hbd.2 (by simp)
+  apply Sat.bind
+  apply Sat.mono (good_setParams pos params s2 hi2)
+  intro _ s3 ⟨hi3, hr3, _⟩
   apply Sat.bind
   apply Sat.mono (hb s3 hi3)
   intro _ s4 ⟨hi4, hr4, _⟩
+  have hch4 : ChainLE (tn :: s.tables) s4.tables := by rw [← ht2]; exact hr3.chain.trans hr4.chain
+  obtain ⟨t4, r4, htr4, hblk4, hle4⟩ := chainLE_cons_left hch4
+  rw [hblk] at hblk4
   apply Sat.bind
-  apply Sat.mono (goodS_finishFn s4 hi4)
-  intro fn s5 ⟨hi5, hr5, hfn⟩
-  obtain ⟨t5, r5, htr5⟩ : ∃ t r, s5.tables = t :: r := by
-    cases h : s5.tables with
-    | nil => exact absurd h hi5.ne
-    | cons t r => exact ⟨t, r, rfl⟩
+  apply Sat.mono (sat_finishFn s4 hi4 htr4 hblk4)
+  intro fn s5 ⟨hi5, hr5, ht5, hfn⟩
+  have htr5 : s5.tables = t4 :: r4 := ht5.trans htr4
   unfold leaveFn
   apply Sat.bind
   apply Sat.bind
@@ -678,34 +1019,25 @@ theorem goodS_withFn (pos : Pos) (variadic : Bool) (params : List String) {body 
   apply Sat.set
   apply Sat.pure
   apply Sat.pure
-  have hlen : r5.length = s.tables.length := by
-    have h5 := hr5.tlen
-    have h4 := hr4.tlen
-    have h2 := hr2.tlen
-    rw [htr5] at h5
-    rw [ht3] at h4
-    simp at h5
-    omega
-  have hc3 : s3.constants = s2.constants := by subst hs3; rfl
-  have hc1 : s1.constants = s.constants := by subst hs1; rfl
-  have hcz : s2.constants.size ≤ s5.constants.size := by
-    have := hr4.csz; have := hr5.csz; rw [hc3] at *; omega
-  refine ⟨⟨?_, ?_, hi2.walk, hi2.loops, hi5.consts, hi2.targets.mono hcz⟩,
-    hr2.transfer hin1 hl1 rfl rfl hlen (by have := hr2.csz; rw [hc1] at this; exact Nat.le_trans this hcz), hfn⟩
-  · intro h
-    simp only at h
-    rw [h, htr] at hlen
-    simp at hlen
-  · have := hi5.tabs
-    rw [htr5] at this
-    exact tablesOK_tail this
+  have hcp : CPre s.constants s5.constants := by
+    rw [← hc2]; exact hr3.cpre.trans (hr4.cpre.trans hr5.cpre)
+  have hch5 := hi5.chain
+  rw [htr5] at hch5
+  have hne : r4 ≠ [] := ne_of_chainLE hle4 hs.ne
+  refine ⟨⟨hne, hch5.tail, hs.walk, hs.loops, hi5.consts, hs.targets.mono ⟨hcp, hle4.fmd, hle4.fnf⟩, hs.bok⟩,
+    Rel.of_same hle4 rfl rfl hcp, hfn, hch5.2.2.1 hblk4⟩
+
+theorem good_emitMakeArray (pos : Pos) : Good (emit_ pos OpGetBuiltin [Gen.builtinMakeArray]) :=
+  fun _ hs => sat_emit_builtin hs ⟨Gen.builtinMakeArray, rfl, by decide⟩
 
 theorem good_compileAssign (pos : Pos) (lhs : List Expr) (nrhs : Nat) {rhsAct lhs0Act defAssign0 : CM Unit}
     {destruct : Int → CM Unit} (op : Nat) (h1 : Good rhsAct) (h2 : Good lhs0Act) (h3 : Good defAssign0)
     (h4 : ∀ i, Good (destruct i)) : Good (compileAssign pos lhs nrhs rhsAct lhs0Act defAssign0 destruct op) := by
   have := good_defineLocal ":array"
+  have := good_emitMakeArray pos
   unfold compileAssign
   good
   exact h4 _
+
 
 end UgoVerif.Compile
